@@ -157,7 +157,7 @@ func runMemberOpt(c *core.Ctx, mb member, rules map[string]bool, budget int, siz
 			if i := strings.IndexByte(base, ':'); i >= 0 {
 				base = base[:i]
 			}
-			if !(rules[is.Rule] || rules[base] || is.Rule == "A-UNDECIDED" || is.Rule == "A-SYN" || is.Rule == "A-PANIC" || is.Rule == "A-GENERR") {
+			if !(rules[is.Rule] || rules[base] || is.Rule == "A-UNDECIDED" || is.Rule == "A-SYN" || is.Rule == "A-PANIC" || is.Rule == "A-GENERR" || is.Rule == "A-HANG") {
 				continue
 			}
 			fn := is.Site
